@@ -150,4 +150,67 @@ def traceOk (rule : KeyRule) : List Obs → List Obs → Bool
 failed for that reason. `rejected` is what the producer did. -/
 def rejectOk (len pick : Int) (rejected : Bool) : Bool := rejected == !(inRange len pick)
 
+/-! ## The client-side choice of the partition (records produced through a client)
+
+A topic has `nAll` partitions `0 … nAll-1`; at any moment only some of them have a leader (`writable`).
+The property text: *records with equal keys go to the same partition* — with no exception for the
+moments in which some partition is leaderless — and the default hasher picks *the partition the Java
+client picks*, which is computed over all `numPartitions` of the topic. -/
+
+/-- the named formula holds for `pick` (nothing to check for `consistentOnly`). -/
+def ruleHolds (rule : KeyRule) (k : List UInt8) (n pick : Int) : Bool :=
+  match rule with
+  | .kafkaDefault => pick == kafkaPartition k n
+  | .saramaFnv => pick == saramaPartition (fnv1a32 k) n
+  | .unsignedFnv => pick == unsignedPartition (fnv1a32 k) n
+  | .consistentOnly => true
+
+/-- One record observed through a producing client: the key the partitioner hashes (`none`: nil key, or a
+partitioner that ignores keys), the number of partitions of the topic, the partition numbers that had a
+leader when the record was produced, and the partition number the record was buffered on. -/
+structure SelObs where
+  key : Option (List UInt8)
+  nAll : Int
+  writable : List Int
+  part : Int
+deriving DecidableEq, Repr
+
+/-- keyed part of the property on one produced record, given the earlier ones of the same topic:
+same key and same partition count ⇒ same partition, *whatever the writable sets were*; and the formula. -/
+def selKeyedOk (rule : KeyRule) (earlier : List SelObs) (k : List UInt8) (o : SelObs) : Bool :=
+  earlier.all (fun e => !(e.key == some k && e.nAll == o.nAll) || e.part == o.part) &&
+  ruleHolds rule k o.nAll o.part
+
+/-- The property on one produced record: a partition of the topic; keyed: `selKeyedOk`; unkeyed: a
+partition that can be written to whenever there is one (the documented reason for `RequiresConsistency`
+being false: "a record may hash to a partition that cannot be written to" only when it is true). -/
+def selOk (rule : KeyRule) (earlier : List SelObs) (o : SelObs) : Bool :=
+  inRange o.nAll o.part &&
+  (match o.key with
+   | none => o.writable.isEmpty || o.writable.contains o.part
+   | some k => selKeyedOk rule earlier k o)
+
+/-- stable name of a `selOk` failure. -/
+def selFailKey (rule : KeyRule) (earlier : List SelObs) (o : SelObs) : String :=
+  if !(inRange o.nAll o.part) then "partition-out-of-range"
+  else match o.key with
+    | none => "unkeyed-record-on-leaderless-partition"
+    | some k =>
+      if (o.writable.length : Int) ≠ o.nAll ||
+         earlier.any (fun e => e.key == some k && e.nAll == o.nAll && e.part != o.part && e.writable != o.writable)
+      then "keyed-record-partition-depends-on-writable-set"
+      else if !(ruleHolds rule k o.nAll o.part) then "keyed-pick" else "keyed-pick-unstable"
+
+/-- `ManualPartitioner`: the record goes to the partition number it names (`out = some part`), or is failed
+(`out = none`) exactly when that number is not a partition of the topic. -/
+def manualSelOk (nAll rpart : Int) (out : Option Int) : Bool :=
+  match out with
+  | some part => inRange nAll rpart && part == rpart
+  | none => !(inRange nAll rpart)
+
+/-- `RequiresConsistency(r)` as the interface documents it ("true if a record must hash to the same
+partition even if a partition is down"): a partitioner that maps this record by its key (or, for the
+basic consistent partitioners, by the record alone) must answer true; otherwise any answer is allowed. -/
+def rcOk (mustBeConsistent : Bool) (answer : Bool) : Bool := !mustBeConsistent || answer
+
 end Spec.C28
